@@ -204,7 +204,11 @@ class _AbstractSampler(_ABC):
         # Run details (panel 1) --------------------------------------------------------
         run_details = {}
         proposed_samples = self.current_proposal if self.current_proposal > 0 else None
-        acceptance_rate = self.accepted_proposals / (self.current_proposal + 1)
+        acceptance_rate = (
+            self.accepted_proposals / (self.current_proposal + 1)
+            if self.current_proposal + 1 > 0
+            else 0.0
+        )
         if not (self.start_time is None or self.end_time is None):
             runtime = (self.end_time - self.start_time).total_seconds()
             run_details["local start time (not timezone aware)"] = self.start_time
@@ -480,8 +484,12 @@ class _AbstractSampler(_ABC):
 
     def _close_sampler(self):
 
+        completed_proposals = self.current_proposal + 1
         self.samples.write_attribute(
-            "acceptance_rate", self.accepted_proposals / (self.current_proposal + 1)
+            "acceptance_rate",
+            self.accepted_proposals / completed_proposals
+            if completed_proposals > 0
+            else 0.0,
         )
 
         self.samples.write_attribute(
